@@ -21,7 +21,11 @@ import Pog.Lemmas.Loader
          promotion_name_collision_after_sanitize
          promotion_names_injective_partial        (hypothesis: both keys are `default` or digit + two characters)
        response_vs_body_promotion_names_disjoint  full
-    5  parameters_order_and_count                 full   (C04/C07) + parameters_carry_operation_id, parameters_not_merged
+    5  parameters_order_and_count                 full   (C04/C07) + parameters_carry_operation_id
+       parameters_operation_level_wins            full   (C04; F4 repaired: the operation-level parameter overrides the path-level one
+                                                          with the same (name, in)) + parameters_override_former_witness (was
+                                                          `parameters_not_merged`), parameters_override_is_python_eq
+       parameters_no_duplicate_key                full   (C01/C20) no two parsed parameters share (name, in) when neither declared list does
     6  parse_is_local                             full   (C19)  + parse_depends_on_lookups_only
     +  ✗ post_process_names_distinct              `post_process_operation` gives ONE name to different schemas
          post_process_response_name_collision_counterexample, post_process_request_name_collision_counterexample
@@ -385,20 +389,26 @@ theorem response_vs_body_promotion_names_disjoint (a c a' : Str) : respPromoName
 
 /-! ## 5. parameters -/
 
-/-- **parameters_order_and_count** (C04/C07).  The parameters of a kept operation are the path-level ones, in order,
-    followed by the operation-level ones, in order: one per declared node, nothing merged or dropped, each carrying
-    `node["name"]` of its (resolved) node. -/
+/-- **parameters_order_and_count** (C04/C07).  Both parameter lists of a kept operation are parsed, one `IRParameter` per
+    declared node, each carrying `node["name"]` of its (resolved) node; the parameters of the operation are the path-level
+    ones that no operation-level parameter overrides (`mergeParams`: same `name` and same `in`), in order, followed by ALL
+    the operation-level ones, in order - a sub-list of the plain concatenation, nothing re-ordered, and exactly the
+    concatenation when no operation-level parameter repeats a path-level (name, in). -/
 theorem parameters_order_and_count (u : UInfo) (orc : Oracle) (c : Comps) (i : OpIn) (out : OpOut)
     (h : parseOp u orc c i = .ok out) :
     ∃ base ev1 own ev2,
       parseParams orc c.parameters i.opId i.pathParams = .ok (base, ev1) ∧
       parseParams orc c.parameters i.opId i.params = .ok (own, ev2) ∧
-      out.params = base ++ own ∧ base.length = i.pathParams.length ∧ own.length = i.params.length ∧
-      out.params.map (·.name) = (i.pathParams ++ i.params).map (paramNameOf c.parameters) := by
+      out.params = mergeParams base own ∧ base.length = i.pathParams.length ∧ own.length = i.params.length ∧
+      (base ++ own).map (·.name) = (i.pathParams ++ i.params).map (paramNameOf c.parameters) ∧
+      out.params.Sublist (base ++ own) ∧ own <:+ out.params ∧
+      ((∀ p ∈ base, ∀ q ∈ own, sameParamKey p q = false) → out.params = base ++ own) := by
   obtain ⟨base, ev1, own, ev2, _, _, _, _, h1, h2, _, _, hout⟩ := parseOp_ok h
-  refine ⟨base, ev1, own, ev2, h1, h2, by rw [hout], parseParams_length h1, parseParams_length h2, ?_⟩
-  rw [hout]
-  simp only [List.map_append, parseParams_names h1, parseParams_names h2]
+  refine ⟨base, ev1, own, ev2, h1, h2, by rw [hout], parseParams_length h1, parseParams_length h2, ?_, ?_, ?_, ?_⟩
+  · simp only [List.map_append, parseParams_names h1, parseParams_names h2]
+  · rw [hout]; exact mergeParams_sublist base own
+  · rw [hout]; exact mergeParams_suffix base own
+  · intro hd; rw [hout]; exact mergeParams_of_distinct hd
 
 /-- Each parameter is parsed with THIS operation's id: a named schema request of a parameter is
     `{opId}Param{SanitizedName}` of that very parameter. -/
@@ -410,7 +420,7 @@ theorem parameters_carry_operation_id (u : UInfo) (orc : Oracle) (c : Comps) (i 
   intro p hp req hreq
   rw [hout] at hp
   have : ∃ node ev, parseParam orc i.opId node = .ok (p, ev) := by
-    rcases List.mem_append.mp hp with hp | hp
+    rcases mem_mergeParams.mp hp with ⟨hp, _⟩ | hp
     · exact parseParams_mem h1 p hp
     · exact parseParams_mem h2 p hp
   obtain ⟨node, ev, hpp⟩ := this
@@ -418,15 +428,91 @@ theorem parameters_carry_operation_id (u : UInfo) (orc : Oracle) (c : Comps) (i 
   · exact Or.inr ⟨n, hn, hr⟩
   · exact Or.inl hr
 
-/-- No merge: an operation-level parameter that repeats a path-level one (same `name`, same `in`) does not replace it —
-    both are in the result (OpenAPI says the operation-level one overrides). -/
-theorem parameters_not_merged :
+/-- **parameters_operation_level_wins** (F4 repaired; OpenAPI: "a parameter at the operation level overrides the one of the
+    path item with the same name and location").  Every operation-level parameter is a parameter of the operation; a
+    path-level one is exactly when NO operation-level parameter has its (name, in) (Python `==` on both). -/
+theorem parameters_operation_level_wins (u : UInfo) (orc : Oracle) (c : Comps) (i : OpIn) (out : OpOut)
+    (h : parseOp u orc c i = .ok out) :
+    ∃ base ev1 own ev2,
+      parseParams orc c.parameters i.opId i.pathParams = .ok (base, ev1) ∧
+      parseParams orc c.parameters i.opId i.params = .ok (own, ev2) ∧
+      (∀ p ∈ own, p ∈ out.params) ∧
+      (∀ p ∈ base, (∀ q ∈ own, sameParamKey p q = false) → p ∈ out.params) ∧
+      (∀ p ∈ out.params, p ∈ own ∨ (p ∈ base ∧ ∀ q ∈ own, sameParamKey p q = false)) := by
+  obtain ⟨base, ev1, own, ev2, _, _, _, _, h1, h2, _, _, hout⟩ := parseOp_ok h
+  refine ⟨base, ev1, own, ev2, h1, h2, ?_, ?_, ?_⟩
+  · intro p hp; rw [hout]; exact mem_mergeParams.mpr (Or.inr hp)
+  · intro p hp hd; rw [hout]; exact mem_mergeParams.mpr (Or.inl ⟨hp, hd⟩)
+  · intro p hp
+    rw [hout] at hp
+    rcases mem_mergeParams.mp hp with hb | ho
+    · exact Or.inr hb
+    · exact Or.inl ho
+
+/-- The declared nodes of one `parameters` list have pairwise different (name, in): `node["name"]` /
+    `node.get("in", "query")` of the RESOLVED nodes, compared as Python compares them (`pyEqJ`). -/
+def DeclKeysDistinct (tbl : List (Str × JsonV)) (ps : List JsonV) : Prop :=
+  ps.Pairwise (fun a b =>
+    (pyEqJ (paramNameOf tbl a) (paramNameOf tbl b) && pyEqJ (paramInOf tbl a) (paramInOf tbl b)) = false)
+
+/-- **parameters_no_duplicate_key** (C01/C20; F4 repaired).  When neither the path-level list nor the operation-level list
+    declares one (name, in) twice (what OpenAPI demands of each list), the parsed parameter list of a kept operation has no
+    two entries with the same (name, in) - whatever the two lists share with each other.  (Before the repair the lists
+    were concatenated: a parameter declared at both levels was there twice and the emitted `def` had a duplicate argument.) -/
+theorem parameters_no_duplicate_key (u : UInfo) (orc : Oracle) (c : Comps) (i : OpIn) (out : OpOut)
+    (h : parseOp u orc c i = .ok out)
+    (hb : DeclKeysDistinct c.parameters i.pathParams) (ho : DeclKeysDistinct c.parameters i.params) :
+    out.params.Pairwise (fun a b => sameParamKey a b = false) := by
+  obtain ⟨base, ev1, own, ev2, _, _, _, _, h1, h2, _, _, hout⟩ := parseOp_ok h
+  have key : ∀ {ps : List JsonV} {l : List IRParam} {ev : List Event},
+      parseParams orc c.parameters i.opId ps = .ok (l, ev) → DeclKeysDistinct c.parameters ps →
+      l.Pairwise (fun a b => sameParamKey a b = false) := by
+    intro ps l ev hp hd
+    have hk := parseParams_keys hp
+    have h1 : (l.map (fun p => (p.name, p.pin))).Pairwise
+        (fun (a b : JsonV × JsonV) => (pyEqJ a.1 b.1 && pyEqJ a.2 b.2) = false) := by
+      rw [hk]
+      exact List.pairwise_map.mpr hd
+    exact List.pairwise_map.mp h1
+  rw [hout]
+  exact mergeParams_pairwise (key h1 hb) (key h2 ho)
+
+/-- The hypotheses are satisfiable with an override present: `id`/path at both levels, plus an operation-level `id`/query. -/
+example :
+    let pl := [jobj [("name", jstr "id"), ("in", jstr "path"), ("schema", jobj [("type", jstr "string")])]]
+    let ol := [jobj [("name", jstr "id"), ("in", jstr "path"), ("schema", jobj [("type", jstr "integer")])],
+               jobj [("name", jstr "id"), ("schema", jobj [("type", jstr "string")])]]
+    DeclKeysDistinct [] pl ∧ DeclKeysDistinct [] ol ∧
+    (parseOp UInfo.ascii plainOracle {} { opId := s "getUser", pathParams := pl, params := ol }).toOption.map
+      (fun o => o.params.map (fun p => (p.name, p.pin)))
+      = some [(jstr "id", jstr "path"), (jstr "id", jstr "query")] := by
+  refine ⟨?_, ?_, by decide +kernel⟩
+  · exact List.pairwise_singleton _ _
+  · refine List.Pairwise.cons ?_ (List.pairwise_singleton _ _)
+    intro b hb
+    rw [List.mem_singleton.mp hb]
+    decide +kernel
+
+/-- The FORMER WITNESS of F4 (was `parameters_not_merged`: both entries were in the result): the operation-level `id`/path
+    replaces the path-level one - one entry, carrying the operation-level schema. -/
+theorem parameters_override_former_witness :
     (parseOp UInfo.ascii plainOracle {}
       { opId := s "getUser",
         pathParams := [jobj [("name", jstr "id"), ("in", jstr "path"), ("schema", jobj [("type", jstr "string")])]],
         params := [jobj [("name", jstr "id"), ("in", jstr "path"), ("schema", jobj [("type", jstr "integer")])]] }).toOption.map
+      (fun o => o.params.map (fun p => (p.name, p.pin, p.schema)))
+    = some [(jstr "id", jstr "path", .parsed ⟨none, jobj [("type", jstr "integer")]⟩)] := by
+  decide +kernel
+
+/-- The comparison is Python's `==`: the same name in ANOTHER location is a different parameter (both are kept), and
+    `name: true` / `name: 1` are the same key. -/
+theorem parameters_override_is_python_eq :
+    (parseOp UInfo.ascii plainOracle {}
+      { opId := s "op",
+        pathParams := [jobj [("name", jstr "id"), ("in", jstr "path")], jobj [("name", .bool true), ("in", jstr "query")]],
+        params := [jobj [("name", jstr "id")], jobj [("name", .int 1)]] }).toOption.map
       (fun o => o.params.map (fun p => (p.name, p.pin)))
-    = some [(jstr "id", jstr "path"), (jstr "id", jstr "path")] := by
+    = some [(jstr "id", jstr "path"), (jstr "id", jstr "query"), (.int 1, jstr "query")] := by
   decide +kernel
 
 /-! ## 6. locality -/
